@@ -91,6 +91,23 @@ def leaves_of(node):
     return [l for (_, c) in node['named'] for l in leaves_of(c)]
 
 
+PASSIVE = ('monitor', 'stats', 'probe')
+
+
+def strip_passive(node):
+    """the same tree without its passive leaves (sequences that lose all their components stay, empty)"""
+    if 'leaf' in node:
+        return node
+    if 'seq' in node:
+        kids = [strip_passive(c) for c in node['seq'] if not ('leaf' in c and c['leaf']['type'] in PASSIVE)]
+        out = {'seq': kids}
+    else:
+        out = {'named': [[n, strip_passive(c)] for (n, c) in node['named'] if not ('leaf' in c and c['leaf']['type'] in PASSIVE)]}
+    if 'sub' in node:
+        out['sub'] = node['sub']
+    return out
+
+
 def has_sub(node):
     if 'leaf' in node:
         return False
@@ -328,6 +345,8 @@ class H(Harness):
         for l in leaves:
             if l['type'] == 'probe' and rnd.random() < 0.5:
                 l['eq_after'] = rnd.choice([0.0, 1.0, 1.75, 2.5, 3.25, 3.75, 4.5, 6.0, 6.0, 'never'])
+                if l['eq_after'] == 'never' and 'leaf' in case['tree']:
+                    l['eq_after'] = 6.0       # a bare process that is never at equilibrium runs for ever, by its own choice
                 own.append(l['eq_after'])
         if own:
             def floors(node):
@@ -356,7 +375,19 @@ class H(Harness):
                 named[ep.AddDelete.DEGREE] = 3
             return {'unnamed': probe_record(case['cls'], None, plain), 'named': probe_record(case['cls'], case['inst'], named),
                     'exception': None, 'events': [], 'complete': False}
-        return self._execute(case)
+        obs = self._execute(case)
+        # the passive components (Monitor, NetworkStatistics, probes: they post or observe, and change nothing) taken out,
+        # same random choices: the events of the others must be the same, as far as both runs go
+        if (case.get('kind') == 'plain' and not case.get('earlier') and not obs.get('exception') and obs.get('built')
+                and any(l['type'] in PASSIVE for l in leaves_of(case['tree'])) and any(l['type'] not in PASSIVE for l in leaves_of(case['tree']))):
+            keep = {l['id'] for l in leaves_of(case['tree']) if l['type'] not in PASSIVE}
+            bare = dict(case, tree=strip_passive(case['tree']), decorated=[d for d in case['decorated'] if d[0] in keep])
+            try:
+                o2 = self._execute(bare)
+                obs['without_passive'] = {'exception': o2.get('exception'), 'events': [[ev['t'], ev['leaf'], ev['name'], ev['e']] for ev in o2.get('events', [])]}
+            except Exception as e:
+                obs['without_passive'] = {'exception': ['harness', type(e).__name__ + ': ' + str(e)], 'events': []}
+        return obs
 
     def _execute(self, case):
         import epyc
@@ -906,6 +937,18 @@ class H(Harness):
             t_, b_, ls_ = obs['run_equil_bad']
             v.append({'signature': 'run-found-the-sequence-at-equilibrium-although-a-component-is-not',
                       'detail': {'t': t_, 'sequence': b_, 'components': dict(zip([l['id'] for l in leaves], ls_))}})
+        wp = obs.get('without_passive')
+        if wp is not None:
+            if wp['exception']:
+                v.append({'signature': 'run-without-the-passive-components-raised', 'detail': wp['exception']})
+            else:
+                ptypes = {l['id'] for l in leaves if l['type'] in PASSIVE}
+                mine = [[ev['t'], ev['leaf'], ev['name'], ev['e']] for ev in obs['events'] if ev['leaf'] not in ptypes]
+                k = min(len(mine), len(wp['events']))
+                if repr(mine[:k]) != repr(wp['events'][:k]):
+                    j = next(i for i in range(k) if repr(mine[i]) != repr(wp['events'][i]))
+                    v.append({'signature': 'events-differ-when-passive-components-are-removed',
+                              'detail': {'first_difference_at': j, 'with': mine[j], 'without': wp['events'][j]}})
         # maximum time and equilibrium
         lm = obs['leaf_maxtime']
         if case['top_maxtime'] is not None and any(x != case['top_maxtime'] for x in lm.values()):
